@@ -9,6 +9,7 @@ import (
 	"fmt"
 	"io"
 	"math"
+	"net"
 	"net/http"
 	"net/url"
 	"os"
@@ -34,6 +35,14 @@ type server struct {
 // startServer rewrites the single-node config template (all /tmp/openGemini paths under dir, every port into
 // [port, port+9]) and starts the binary. HOME is redirected so the default loggers stay inside dir.
 func startServer(bin, confTemplate, dir string, port int) (*server, error) {
+	// refuse to start if anything already listens inside the port block (another run, a foreign process)
+	for p := port; p < port+10; p++ {
+		l, err := net.Listen("tcp", fmt.Sprintf("127.0.0.1:%d", p))
+		if err != nil {
+			return nil, fmt.Errorf("port %d of the block %d-%d is in use: %v", p, port, port+9, err)
+		}
+		l.Close()
+	}
 	raw, err := os.ReadFile(confTemplate)
 	if err != nil {
 		return nil, err
